@@ -392,6 +392,8 @@ class Builder:
             b[44:48] = self.root.chain[0].to_bytes(4, "little")
             b[48:50] = (1).to_bytes(2, "little"); b[50:52] = (6 if self.reserved > 6 else 0).to_bytes(2, "little")
             b[64] = 0x80; b[66] = 0x29; b[67:71] = (0xCAFEBABE).to_bytes(4, "little"); b[71:82] = b"BPB LABEL  "; b[82:90] = b"FAT32   "
+            if self.r.chance(1, 4):
+                b[66] = self.r.choice([0x00, 0x28]); b[67:90] = bytes(23)      # no extended boot signature: id / label / type absent
             fsi = bytearray(512)
             fsi[0:4] = (0x41615252).to_bytes(4, "little"); fsi[484:488] = (0x61417272).to_bytes(4, "little")
             self.fsinfo_known = self.r.chance(1, 2)
@@ -405,6 +407,8 @@ class Builder:
         else:
             b[36] = 0x80; b[38] = 0x29; b[39:43] = (0xCAFEBABE).to_bytes(4, "little"); b[43:54] = b"BPB LABEL  "
             b[54:62] = b"FAT12   " if self.bits == 12 else b"FAT16   "
+            if self.r.chance(1, 4):
+                b[38] = self.r.choice([0x00, 0x28]); b[39:62] = bytes(23)
         b[510:512] = b"\x55\xAA"
         self.put(0, bytes(b))
         if self.bits == 32 and self.reserved > 6:
